@@ -40,7 +40,12 @@ RULE = (
     "incident triangle keeps its orientation; then compute_geometry()); the same pair is matched repeatedly (same "
     "or swapped argument order) with or without other pairs in between; the pattern match (i,j) - move nodes of i "
     "or j - match (i,j) again is forced in half of the histories. After every matching the full matrix oracle is "
-    "applied with the exact overlaps of the grids as they are at that time. Non-trivial = the two tessellations "
+    "applied with the exact overlaps of the grids as they are at that time. Length-unit class (every second case, all "
+    "families): an integer lattice offset (0, 10 or 1000 units) is added and every coordinate multiplied by an exact "
+    "factor 2^-20, 2^-13, 2^-10, 2^-7, 10, 1e3, 8192 or 1e4 (domain sides ~1e-6 .. 1e5; shifts of rotated planes "
+    "scale along), so the exact reference stays exact; all comparisons are relative to the domain / cell measure (no "
+    "absolute terms); match_1d / match_2d get their tol scaled with the domain as their docstrings ask. "
+    "Non-trivial = the two tessellations "
     "differ and each has >= 2 cells (histories: a node was moved or >= 3 matchings); distinct = hash of spec."
 )
 BUDGET = {"quick": {"cases": 3200, "seconds": 35}, "thorough": {"cases": 120000, "seconds": 1100}}
@@ -51,9 +56,9 @@ LEVEL_TEXT = ("Exploration: thousands of generated pairs of 1-d tessellations of
               "run; overlaps, cell-wise sums and the averaged / integrated matching matrices are compared with "
               "exact rational measures; generated histories of matchings over a pool of grid objects that are modified "
               "in place between matchings check that every matching reflects the current geometry.")
-LEVEL_NOTE = ("Coordinates are dyadic rationals (1/64 of the segment, 1/16 lattice in 2-d), cells are not smaller than "
-              "1e-2 of the domain, so the absolute 1e-8 tolerances inside segments_3d / shapely's robustness are not "
-              "stressed. 2-d domains are convex; triangulations come from scipy (qhull) and are verified exactly "
+LEVEL_NOTE = ("Coordinates are dyadic rationals (1/64 of the segment, 1/16 lattice in 2-d) times an exact unit factor "
+              "(2^-20 .. 1e4), cells are not smaller than 1e-2 of the domain; with the smallest factor the shortest 1-d "
+              "cell is 1.5e-8, just above the absolute 1e-8 of segments_3d (smaller units are not generated). 2-d domains are convex; triangulations come from scipy (qhull) and are verified exactly "
               "(areas add up to the polygon) before use. match_2d rotations into 3-d are floating point.")
 DESIGN_REF = "DESIGN.md section 4, C33"
 ASSUMPTIONS = [
@@ -76,8 +81,55 @@ REQUIRED = {
     "match2d-rotated-hanging-node": 0.015, "st-three-sets": 0.004, "st-simplexes": 0.015,
     "history": 0.15, "history_1d": 0.06, "history_2d": 0.06, "history-moved-nodes-same-pair": 0.05,
     "history-same-pair-twice": 0.05, "history-other-pair-between": 0.006,
+    "unit-scale": 0.3, "scaled": 0.3, "scaled-small": 0.12, "scaled-large": 0.12, "scaled-1e-4-or-less": 0.05,
+    "lattice-offset": 0.1,
 }
 RT = 1e-10
+
+# Length-unit class: every coordinate of a case is multiplied by an exact factor (power of two, or 10 / 1e3 / 1e4) after
+# an integer lattice offset has been added, so domains have sides from ~1e-6 to ~1e5 and the exact reference stays exact.
+SCALES = [(1, 2 ** 20), (1, 2 ** 13), (1, 2 ** 10), (1, 2 ** 7), (10, 1), (1000, 1), (8192, 1), (10000, 1)]
+OFFSETS = [0, 0, 10, 1000]  # lattice units; offset / domain size <= ~1e3 keeps shapely's own area arithmetic accurate
+
+
+def _scale_labels(s):
+    t = s.get("sc")
+    if t is None:
+        return ["unit-scale"]
+    out = ["scaled", "scaled-small" if t[0] < t[1] else "scaled-large"]
+    if t[0] * (1 << 12) < t[1]:
+        out.append("scaled-1e-4-or-less")
+    if any(t[2]):
+        out.append("lattice-offset")
+    return out
+
+
+def _sc(s):
+    t = s.get("sc")
+    if t is None:
+        return 1.0, [0, 0, 0]
+    return t[0] / t[1], t[2]
+
+
+def _xy(pts, s):
+    """(2, n) float coordinates of 2-d lattice points given in units of 1/16 (exact)."""
+    f, off = _sc(s)
+    return (np.array(pts, dtype=float).T / 16.0 + np.array(off[:2], dtype=float).reshape((2, 1))) * f
+
+
+def _au(s):
+    """Real area of one unit of 'twice the area in fine-lattice units'."""
+    f, _ = _sc(s)
+    return f * f / 512.0
+
+
+def build_sc(fn, n, sci):
+    s = build(fn, n)
+    if sci is not None:
+        num, den = SCALES[sci % len(SCALES)]
+        m = OFFSETS[(sci // len(SCALES)) % len(OFFSETS)]
+        s["sc"] = [num, den, [m, -(m // 2), m // 5]]
+    return s
 
 
 # ----------------------------------------------------------------------------- strategy
@@ -250,7 +302,7 @@ def build(fn, n):
 
 
 def strategy(tier):
-    return st.builds(build, st.sampled_from(FNS), big_int(400))
+    return st.builds(build_sc, st.sampled_from(FNS), big_int(400), st.one_of(st.none(), st.integers(0, 31)))
 
 
 def warmup():
@@ -319,7 +371,7 @@ def _triangulate(H, inner):
 
 def _sum_check(pairs, meas1, meas2, dom, tag, what):
     """pairs: list of (i, j, w) floats; meas*: exact measures (floats) of the cells of both tessellations."""
-    tol = RT * dom + 1e-14
+    tol = RT * dom
     s1, s2 = np.zeros(len(meas1)), np.zeros(len(meas2))
     for i, j, w in pairs:
         require(0 <= i < len(meas1) and 0 <= j < len(meas2), tag + "-index", lambda: f"{what}: pair ({i},{j})")
@@ -373,7 +425,7 @@ def _grid2d(s, Tk):
     import porepy as pp
 
     pts, tri, _ = Tk
-    P = np.array(pts, dtype=float).T / 16.0
+    P = _xy(pts, s)
     E = [eg.pt(p) for p in pts]
     t = np.array([t_ if eg.orient2d(E[t_[0]], E[t_[1]], E[t_[2]]) > 0 else [t_[0], t_[2], t_[1]] for t_ in tri], dtype=int).T
     g = pp.TriangleGrid(P, t)
@@ -382,7 +434,7 @@ def _grid2d(s, Tk):
         if not ax.any():
             ax = np.array([1.0, 0, 0])
         R = pp.map_geometry.rotation_matrix(s["rot"][3] * np.pi / 8 + 0.1, ax / np.linalg.norm(ax))
-        g.nodes = R @ g.nodes + np.array(s["shift"], dtype=float).reshape((3, 1))
+        g.nodes = R @ g.nodes + _sc(s)[0] * np.array(s["shift"], dtype=float).reshape((3, 1))
     g.compute_geometry()
     return g
 
@@ -566,11 +618,12 @@ def _check_history(s):
     changed = {}
     if fn == "history_1d":
         a, b = eg.pt(s["a"]), eg.pt(s["b"])
-        L = math.sqrt(float(eg.norm2(eg.sub(b, a))))
+        f, off = _sc(s)
+        L = math.sqrt(float(eg.norm2(eg.sub(b, a)))) * f
         d = [y - x for x, y in zip(s["a"], s["b"])]
 
         def coords(ks, rev):
-            c = np.array([[s["a"][m] + k * d[m] / 64.0 for k in ks] for m in range(3)])
+            c = np.array([[(s["a"][m] + off[m] + k * d[m] / 64.0) * f for k in ks] for m in range(3)])  # exact
             return c[:, ::-1].copy() if rev else c
 
         ks = [list(k) for k in s["k"]]
@@ -614,14 +667,14 @@ def _check_history(s):
     else:
         H = s["hull"]
         HE = [eg.pt(p) for p in H]
-        dom = float(abs(eg.polygon_area2_2d(HE))) / 2 / 256.0
+        dom = float(abs(eg.polygon_area2_2d(HE))) * _au(s)
         T = [_triangulate(H, inner) for inner in s["inner"]]
         if any(t is None for t in T):
             return {"labels": [fn, "tri-invalid"], "nontrivial": False}
         pts = [[list(p) for p in t[0]] for t in T]          # current node positions (1/16 lattice), per grid
         tris = [[list(x) for x in t[1]] for t in T]         # fixed connectivity
         nh = len(H)
-        spec2 = {"rot": s["rot"], "shift": s["shift"]}
+        spec2 = {"rot": s["rot"], "shift": s["shift"], "sc": s.get("sc")}
         grids = [_grid2d(spec2, (pts[g], tris[g], None)) for g in range(len(T))]
 
         def exact_tris(g):
@@ -630,13 +683,13 @@ def _check_history(s):
             return [_ccw([E[i] for i in t]) for t in tris[g]]
 
         def place(g):
-            P = np.vstack((np.array(pts[g], dtype=float).T / 16.0, np.zeros(len(pts[g]))))
+            P = np.vstack((_xy(pts[g], s), np.zeros(len(pts[g]))))
             if s["rot"] is not None:
                 ax = np.array(s["rot"][:3], dtype=float)
                 if not ax.any():
                     ax = np.array([1.0, 0, 0])
                 R = pp.map_geometry.rotation_matrix(s["rot"][3] * np.pi / 8 + 0.1, ax / np.linalg.norm(ax))
-                P = R @ P + np.array(s["shift"], dtype=float).reshape((3, 1))
+                P = R @ P + _sc(s)[0] * np.array(s["shift"], dtype=float).reshape((3, 1))
             grids[g].nodes = P  # in place: same object, same topology
             grids[g].compute_geometry()
 
@@ -665,9 +718,9 @@ def _check_history(s):
                 continue
             i, j, scaling = op[1], op[2], op[3]
             Ti, Tj = exact_tris(i), exact_tris(j)
-            mn = [float(abs(eg.polygon_area2_2d(t))) / 2 / 256.0 for t in Ti]
-            mo = [float(abs(eg.polygon_area2_2d(t))) / 2 / 256.0 for t in Tj]
-            exm = np.array([[float(_clip_area2(t1, t2)) / 2 / 256.0 for t2 in Tj] for t1 in Ti])
+            mn = [float(abs(eg.polygon_area2_2d(t))) * _au(s) for t in Ti]
+            mo = [float(abs(eg.polygon_area2_2d(t))) * _au(s) for t in Tj]
+            exm = np.array([[float(_clip_area2(t1, t2)) * _au(s) for t2 in Tj] for t1 in Ti])
             if not np.max(np.abs(grids[i].cell_volumes - np.array(mn))) <= 1e-9 * dom:
                 raise HarnessError(f"2-d history grid {i}: volumes {grids[i].cell_volumes.tolist()} expected {mn}")
             M = pp.match_grids.match_2d(grids[i], grids[j], 1e-6 * dom, scaling)
@@ -690,12 +743,15 @@ def check(s):
 
     fn = s["fn"]
     if fn.startswith("history"):
-        return _check_history(s)
+        r = _check_history(s)
+        r["labels"] = sorted(set(r["labels"] + _scale_labels(s)))
+        return r
     labels = [fn]
 
     if fn in ("line_tessellation", "match_1d"):
         a, b = eg.pt(s["a"]), eg.pt(s["b"])
-        L = math.sqrt(float(eg.norm2(eg.sub(b, a))))
+        f, off = _sc(s)
+        L = math.sqrt(float(eg.norm2(eg.sub(b, a)))) * f
         d = [y - x for x, y in zip(s["a"], s["b"])]
         labels.append("1d-axis-line" if sum(1 for x in d if x) == 1 else "1d-skew-line")
         k1, k2 = s["k1"], s["k2"]
@@ -705,7 +761,7 @@ def check(s):
             labels.append("1d-identical")
 
         def coords(ks):
-            return np.array([[s["a"][m] + k * d[m] / 64.0 for k in ks] for m in range(3)])  # exact (dyadic)
+            return np.array([[(s["a"][m] + off[m] + k * d[m] / 64.0) * f for k in ks] for m in range(3)])  # exact
 
         ex = [[max(0, min(k1[i + 1], k2[j + 1]) - max(k1[i], k2[j])) * L / 64.0 for j in range(len(k2) - 1)]
               for i in range(len(k1) - 1)]
@@ -733,7 +789,7 @@ def check(s):
             got = np.zeros((len(m1), len(m2)))
             for i, j, w in pairs:
                 got[i, j] += w
-            require(np.max(np.abs(got - np.array(ex))) <= RT * L + 1e-14, "line-tessellation-pairwise",
+            require(np.max(np.abs(got - np.array(ex))) <= RT * L, "line-tessellation-pairwise",
                     lambda: f"{what}: overlaps {got.tolist()} expected {ex}")
         else:
             def grid(ks, rev):
@@ -777,13 +833,13 @@ def check(s):
 
         if any(on_bd(p) for inner in sets_in for p in inner):
             labels.append("2d-boundary-nodes")
-        dom = float(abs(eg.polygon_area2_2d(HE))) / 2 / 256.0  # area in real units (coordinates / 16)
+        dom = float(abs(eg.polygon_area2_2d(HE))) * _au(s)  # area in real units (coordinates / 16)
         F = Digits(s["flip"])
         tris = []  # per set: list of exact ccw triangles (fine lattice), areas (real units)
         for pts, tri, areas in T:
             E = [eg.pt(p) for p in pts]
-            tris.append(([_ccw([E[i] for i in t]) for t in tri], [float(a) / 2 / 256.0 for a in areas]))
-        exact = [[float(_clip_area2(t1, t2)) / 2 / 256.0 for t2 in tris[1][0]] for t1 in tris[0][0]]
+            tris.append(([_ccw([E[i] for i in t]) for t in tri], [float(a) * _au(s) for a in areas]))
+        exact = [[float(_clip_area2(t1, t2)) * _au(s) for t2 in tris[1][0]] for t1 in tris[0][0]]
         what = f"{fn} hull={H} in1={s['in1']} in2={s['in2']}"
         nontrivial = len(T[0][1]) >= 2 and len(T[1][1]) >= 2 and sorted(map(sorted, T[0][1])) != sorted(map(sorted, T[1][1]))
         if s["in1"] == s["in2"]:
@@ -793,7 +849,7 @@ def check(s):
             def arrs(k):
                 pts, tri, _ = T[k]
                 t = np.array([list(x) if F.bool() else [x[0], x[2], x[1]] for x in tri], dtype=int).T
-                return np.array(pts, dtype=float).T / 16.0, t
+                return _xy(pts, s), t
 
             p1, t1 = arrs(0)
             p2, t2 = arrs(1)
@@ -803,7 +859,7 @@ def check(s):
             got = np.zeros((len(tris[0][1]), len(tris[1][1])))
             for i, j, w in pairs:
                 got[i, j] += w
-            require(np.max(np.abs(got - np.array(exact))) <= RT * dom + 1e-14, "triangulations-pairwise",
+            require(np.max(np.abs(got - np.array(exact))) <= RT * dom, "triangulations-pairwise",
                     lambda: f"{what}: overlaps {got.tolist()} expected {exact}")
 
         elif fn == "surface_tessellations":
@@ -813,17 +869,17 @@ def check(s):
                 labels.append("st-simplexes")
             poly_sets = []
             for pts, tri, _ in T:
-                P = np.array(pts, dtype=float).T / 16.0
+                P = _xy(pts, s)
                 poly_sets.append([P[:, list(t) if F.bool() else [t[0], t[2], t[1]]].copy() for t in tri])
             isect, maps = pp.intersections.surface_tessellations(poly_sets, return_simplexes=s["simplexes"])
             require(len(maps) == len(T), "surface-tessellations-mappings", f"{len(maps)} mappings for {len(T)} sets")
             areas = []
             for q in isect:
                 q = np.asarray(q, dtype=float)
-                x, y = q[0], q[1]
+                x, y = q[0] - q[0, 0], q[1] - q[1, 0]  # differences first: the shoelace sum must not cancel a large offset
                 areas.append(0.5 * abs(float(np.dot(x, np.roll(y, -1)) - np.dot(y, np.roll(x, -1)))))
             areas = np.array(areas)
-            tol = RT * dom + 1e-14
+            tol = RT * dom
             require(abs(areas.sum() - dom) <= tol * 10, "surface-tessellations-total",
                     lambda: f"{what}: cells add up to {areas.sum()!r}, domain {dom!r}")
             for k, Mk in enumerate(maps):
@@ -862,4 +918,4 @@ def check(s):
                     if pos.size and pos.min() < 1e-4 * dom:
                         continue
                 _matrix_check(M, exm, scaling, mn, mo, dom, 1e-6 * dom, "match-2d", what + f" rot={s['rot']}")
-    return {"labels": sorted(set(labels)), "nontrivial": bool(nontrivial)}
+    return {"labels": sorted(set(labels + _scale_labels(s))), "nontrivial": bool(nontrivial)}
